@@ -337,6 +337,16 @@ def build_hierarchy(rng, mol, n_leaves, n_mid_levels, max_order=3):
                 key = (min(ga, gb), max(ga, gb))
                 coarse.edges[key] = coarse.edges.get(key, 0) + 1
         levels.insert(0, coarse)
+    # every {...} block is its own namespace: now and then a name is reused at two levels
+    if len(levels) > 1 and rng.random() < 0.35:
+        for depth in range(len(levels) - 1):
+            coarse = levels[depth]
+            pool = [name for lvl in levels[depth + 1:] for name in lvl.names]
+            for g in range(len(coarse.names)):
+                if rng.random() < 0.5:
+                    cands = [name for name in pool if name not in coarse.names]
+                    if cands:
+                        coarse.names[g] = rng.choice(cands)
     return levels, agroup
 
 
@@ -659,6 +669,11 @@ CURATED = [
     ("{[#SP4]1[#SP4][#SP1r]1}.{#SP4=[OH;0.5]C[$]C[$]O,#SP1r=[$]OC[$]CO}", True, False),
     ("{[#A][#B][#C]}.{#A=O[>],#C=O[<],#B=[<]C[CH;x=R][>]C(=O)OC}", True, False),
     ("{[#A][#B]}.{#A=CC(/F)=[$],#B=[$]=C(/F)C}", True, False),
+    # zero-order edges and a virtual node (kept last), with compatible descriptors left open across the '.' edge
+    ("{[#A][#B].[#C]}.{#A=CC[$],#B=[$]C[$],#C=[$]CO}", True, False),
+    ("{[#SP4]1.2[#SP4].3[#SP1r]1.[#TC4]23}.{#SP4=OC[$]C[$]O,#SP1r=[$]OC[$]CO}", True, False),
+    ("{[#A].[#A][#B]}.{#A=[$]CC[$],#B=[$]O}", True, False),
+    ("{[#X][#Y].[#Y]}.{#X=[>][#P1][#P2][<],#Y=[<][#Q1][#Q2][>]}", False, False),
 ]
 
 MONOMERS = [("PEO", "[>]COC[<]"), ("PE", "[>]CC[<]"), ("PS", "[>]CC[<]c1ccccc1"), ("PMA", "[>]CC[<]C(=O)OC"),
@@ -677,7 +692,9 @@ def build_repeat_item(rng):
         block_defs.append((bname, "[<]" + "".join("[#%s]" % name for _ in range(length)) + "[>]"))
         seq.append(bname)
     order = [rng.randrange(n_blocks) for _ in range(rng.randint(2, 5))]
-    base = "{" + "".join("[#%s]" % seq[k] for k in order) + "}"
+    # now and then two consecutive blocks are joined by a zero-order edge: no bond may form across it
+    base = "{" + "".join("[#%s]%s" % (seq[k], "." if (pos < len(order) - 1 and rng.random() < 0.15) else "")
+                         for pos, k in enumerate(order)) + "}"
     b1 = "{" + ",".join("#%s=%s" % d for d in block_defs) + "}"
     b2 = "{" + ",".join("#%s=%s" % m for m in monos) + "}"
     perm1 = list(range(len(block_defs)))
